@@ -25,11 +25,16 @@ for f in sorted(glob.glob(os.path.join(root, 'specs/layouts/*.json'))):
              '// The `layout` directive synthesises requires/ensures from /verif/specs/layouts (DESIGN.md section 3.4).', '', 'package ' + pkgname, '']
     for t in d['types']:
         T = t['type']
-        for meth, dirv in (('IEncode', 'enc'), ('IDecode', 'dec')):
+        for meth, dirv in (('IEncode', 'enc'), ('IDecode', 'dec'), ('GetCommand', 'cmd'), ('GenEmptyResponse', 'resp'), ('SetSequenceID', 'setseq'), ('GetSequenceID', 'getseq')):
+            if t.get('command') is None and dirv not in ('enc', 'dec'):
+                continue
             m = re.search(r'func \((\w+) \*' + T + r'\) ' + meth + r'\(', src)
             if not m:
                 print('warning: no', T, meth, 'in', pkgdir, file=sys.stderr); continue
-            lines += ['//@ func (%s *%s) %s' % (m.group(1), T, meth), '//@   theory T1', '//@   layout ' + dirv, '']
+            lines += ['//@ func (%s *%s) %s' % (m.group(1), T, meth)] + (['//@   theory T1'] if dirv in ('enc','dec') else []) + ['//@   layout ' + dirv, '']
+    dm = re.search(r'func (Decode\w+)\(data \[\]byte\) \(sms\.PDU, error\)', src)
+    if dm:
+        lines += ['//@ func ' + dm.group(1), '//@   layout dispatch', '']
     lines += ['// ---- hand-written below ----']
     open(out, 'w').write('\n'.join(lines) + '\n' + hand)
     print('wrote', out)
